@@ -166,7 +166,9 @@ def apply_op(p, h, cubic, rnd):
         else:
             p.pop()
     elif op == 'Remove':
-        p.remove(M(h['s']))
+        # the first segment whose projection is the model's segment (after start / end assignments a curved member of the pool is no longer the pool's object)
+        tgt = next((sg for sg in p if proj(sp.Path(sg))[0] == h['s']), None)
+        p.remove(tgt if tgt is not None else M(h['s']))
     elif op == 'Reverse':
         p.reverse()
     elif op == 'SetStart':
